@@ -40,8 +40,8 @@ LEVEL_TEXT = ("Invariant theorems over all operation histories of a Gallina stat
 LEVEL_NOTE = "Trusted: Coq kernel, extraction, drivers, T1/T2 harness; third-party packaging semantics validated by sampling (C17 grid)."
 TECHNIQUE = "Rocq proof (invariants by induction over op histories) + extraction-based per-step differential correspondence"
 
-PROJECTS = ["a", "b", "c", "d"]
-SPELL = {"a": ["a", "A"], "b": ["b", "B"], "c": ["c"], "d": ["d", "D"]}
+PROJECTS = ["a", "b", "c", "d_x"]          # node keys; d_x is a multi-word project spelled with '.', '-', '_' and case
+SPELL = {"a": ["a", "A"], "b": ["b", "B"], "c": ["c"], "d_x": ["d_x", "D.x", "d-x", "D.X", "d.x"]}
 VERSIONS = ["1.0", "2.0"]
 FUEL = 400
 
